@@ -456,7 +456,7 @@ class _SHA2_Common(  # type: ignore[misc]
         # NOTE: avoiding full parsing routine via from_string().checksum,
         # and just extracting the bit we need.
         cs = self.checksum_size
-        if not hash.startswith(self.ident) or hash[-cs - 1] != _UDOLLAR:
+        if not hash.startswith(self.ident) or hash[-cs - 1 : -cs] != _UDOLLAR:
             raise uh.exc.CryptBackendError(self, config, hash)
         return hash[-cs:]
 
